@@ -60,6 +60,21 @@ def generate(repo, out_path):
     text += t
     if err:
         errors.append(f"unpack.cpp: {err}")
+    # fingerprints of the parts of PackedTensor that are modelled by hand (dispatch, constructors, (de)serialisation)
+    # and of the quanto:: op routing
+    try:
+        import ast
+
+        from gen_ops import find, fingerprint
+
+        tree = ast.parse(open(f"{q}/tensor/qbits/packed.py").read())
+        items = [(n, fingerprint(find(tree, "PackedTensor." + n))) for n in ("__torch_dispatch__", "pack", "__new__", "__init__", "__tensor_flatten__", "__tensor_unflatten__", "load_from_state_dict")]
+        t2 = ast.parse(open(f"{q}/library/ops.py").read())
+        items += [("ops.define", fingerprint(find(t2, "define"))), ("ops.disable_extensions", fingerprint(find(t2, "disable_extensions")))]
+        text += "\nDefinition src_packed_prints : list (string * string) := [\n  " + ";\n  ".join(f'("{n}"%string, "{fp}"%string)' for n, fp in items) + "].\n"
+    except Exception as ex:  # noqa: BLE001
+        errors.append(f"PackedTensor fingerprints: {ex}")
+        text += "\nDefinition src_packed_prints : unit := tt.\n"
     os.makedirs(os.path.dirname(out_path), exist_ok=True)
     with open(out_path, "w") as f:
         f.write(text)
